@@ -38,14 +38,15 @@ def atTailCall : St :=
   { fns := [ { name := "__main", closing := [some 0] },
              { name := "builtin", user := true },
              { name := "f", nargs := 1, params := ["n"], closing := [some 0],
-               code := [.addFuncScope 2, .popStackPutEnv "n", .envToStack "n", .prepareCall "f" 1, .removeScope, .goto 0, .removeScope, .ret] },
+               code := [.addFuncScope 2, .popStackPutEnv "n", .tailGuard "f" 5, .envToStack "n", .prepareCall "f" 1, .removeScope, .goto 0,
+                        .callExpr (.sym "f") [.sym "n"], .removeScope, .ret] },
              { name := "__anon3", closing := [some 1, some 0], parent := some 2, code := [.addFuncScope 3, .envToStack "n", .removeScope, .ret] } ],
     scopes := [ { vars := [("f", .fn 2)] },
                 { vars := [("n", intOfLit 3)], isFunction := true, myFunction := some 2 } ],
     linear := [some 1, some 0],
     data := [some (intOfLit 2)],
     addr := [some (0, 5)],
-    curfunc := 2, pc := 3 }
+    curfunc := 2, pc := 4 }
 
 /-- what the closure made in the iteration `n = 3` sees for `n` in state `s`: the binding in
 the scope it captured (scope 1) -/
